@@ -15,6 +15,10 @@ I6 == MkPkt(6, ICMP6, "A", "u", 0, "B", "u", 0, 128, "out", 64)
 MCScripts == { Numbered(<<A4, A6, Back(A4, 16, 300)>>),
                Numbered(<<A6, Back(A6, 0, 90), AsFragment(A4)>>),
                Numbered(<<I6, AsTruncated(MkPkt(6, TCP, "B", "u", 443, "A", "u", 40000, 18, "in", 70)), A4>>) }
+\* quick tier: mixed families in both directions + a packet that does not parse
+MCScriptsQuick == { Numbered(<<A4, A6, Back(A4, 16, 300)>>),
+                    Numbered(<<A6, AsFragment(A4), Back(A6, 0, 90)>>) }
+MCScriptsCov == { Numbered(<<A4, A6, Back(A4, 16, 300)>>) }
 MCKinds == {"wo", "st", "lq"}
 
 View == <<srcv, tok, mainv, lockv, lkv, datav, ghost>>
